@@ -259,6 +259,9 @@ func runC16PayloadOnce(c *C16PayloadCase) error {
 		db.Z.VerifAdvanceClock(time.Unix(0, h.BaseTS+10e9))
 		res, err := db.Query("SELECT * FROM ta", h.QueryOpts{Mem: true})
 		if err != nil {
+			if h.IsInconclusive(err) {
+				return err
+			}
 			return fmt.Errorf("SELECT * FROM ta after the history: %v", err)
 		}
 		return checkValidRows(res, want, "standalone")
@@ -288,6 +291,9 @@ func runC16PayloadOnce(c *C16PayloadCase) error {
 	cl.AdvanceClocks(h.BaseTS + 10e9)
 	res, err := cl.QueryLeader(0, "SELECT * FROM ta", h.QueryOpts{Mem: true})
 	if err != nil {
+		if h.IsInconclusive(err) {
+			return err
+		}
 		return fmt.Errorf("leader SELECT * FROM ta after the history: %v", err)
 	}
 	if res.Stats != nil && (len(res.Stats.MissingPartitions) > 0 || res.Stats.NumSuccessfulPartitions < res.Stats.NumPartitions) {
